@@ -168,3 +168,35 @@ def listed(inv, what='sensors'):
     except BaseException as e:  # noqa: BLE001
         out.error = f'{what}() raised {type(e).__name__}: {e}'
     return out
+
+
+
+def wrap_method(cls, name, observe):
+    """Put an observer in front of cls.<name> whatever kind of method it is (static, class or instance method, any
+    signature): observe(*args_without_self_or_cls, **kw) is called first, then the original.  -> restore()"""
+    raw = cls.__dict__[name]
+    if isinstance(raw, staticmethod):
+        f = raw.__func__
+
+        def w(*a, **kw):
+            observe(*a, **kw)
+            return f(*a, **kw)
+        new = staticmethod(w)
+    elif isinstance(raw, classmethod):
+        f = raw.__func__
+
+        def w(c, *a, **kw):
+            observe(*a, **kw)
+            return f(c, *a, **kw)
+        new = classmethod(w)
+    else:
+        f = raw
+
+        def w(self_, *a, **kw):
+            observe(*a, **kw)
+            return f(self_, *a, **kw)
+        new = w
+    w.__name__ = getattr(f, '__name__', name)
+    w.__qualname__ = getattr(f, '__qualname__', name)
+    setattr(cls, name, new)
+    return lambda: setattr(cls, name, raw)
